@@ -824,6 +824,12 @@ def corpus():
         [['cust', U, [['max_len', 10]], None, None, None, 'call'], ['mand', NBASE], ['mand', U], ['mand', I],
          ['cust', NBASE, [['max_len', {'inf': 1}]], None, None, None, 'customize'],
          ['sub', 0, 'E', []], ['sub', NBASE + 5, 'F', [['f', NBASE]]], ['sub', NBASE + 6, 'G', [['g', I]]]],
+        # a class without members of its own stays in the inheritance chain of its subclasses when it is
+        # itself derived from a class with members (K2), not when nothing above it has members (E, F)
+        [['sub', 0, 'K1', [['a', I]]], ['sub', NBASE, 'K2', []], ['sub', NBASE + 1, 'K3', [['d', I]]],
+         ['sub', 0, 'E', []], ['sub', NBASE + 3, 'F', []], ['sub', NBASE + 4, 'G', [['g', U]]],
+         ['cust', NBASE + 2, [['min_occurs', 1]], [['a', [['min_occurs', 1]]]], None, None, 'customize'],
+         ['app', NBASE + 1, 'm', U], ['app', NBASE + 3, 'e', I], ['cust', NBASE + 5, [], None, None, None, 'customize']],
         # the witnesses of the non-vacuity examples (coq/C15/ExStore.v: ex_hist, then evolution)
         [['sub', 0, 'K', [['a', I], ['b', U]]],
          ['cust', NBASE, [['min_occurs', 1]], [['a', [['min_occurs', 1]]]], None, None, 'customize'],
